@@ -2,6 +2,7 @@
 """Development tool (not a registered command): run checks against a mutated scratch copy of /repo.
 
   tools/mutate.py C06[,C05] --sub FILE 'old text' 'new text' [--sub ...]   inline textual mutation
+  tools/mutate.py C06 --subn FILE N 'old' 'new'     replace the N-th occurrence (1-based)
   tools/mutate.py C06 --patch some.diff                                     git-apply style patch
 The scratch copy lives under /tmp/ragc_mut/repo and is removed afterwards."""
 import os, shutil, subprocess, sys
@@ -19,6 +20,8 @@ def main():
     while i < len(a):
         if a[i] == "--sub":
             subs.append((a[i+1], a[i+2], a[i+3])); i += 4
+        elif a[i] == "--subn":
+            subs.append((a[i+1], a[i+3], a[i+4], int(a[i+2]))); i += 5
         elif a[i] == "--patch":
             patches.append(a[i+1]); i += 2
         elif a[i] == "--keep":
@@ -31,12 +34,22 @@ def main():
     dst = os.path.join(SCRATCH, "repo")
     subprocess.check_call(["rsync", "-a", "--exclude", "target", "--exclude", ".git", REPO + "/", dst + "/"])
     try:
-        for f, old, new in subs:
+        for sub in subs:
+            f, old, new = sub[:3]
+            nth = sub[3] if len(sub) > 3 else None
             p = os.path.join(dst, f)
             t = open(p).read()
-            if t.count(old) != 1:
-                print("MUTATION ERROR: %r occurs %d times in %s" % (old, t.count(old), f)); return 3
-            open(p, "w").write(t.replace(old, new))
+            if nth is None:
+                if t.count(old) != 1:
+                    print("MUTATION ERROR: %r occurs %d times in %s" % (old[:80], t.count(old), f)); return 3
+                open(p, "w").write(t.replace(old, new))
+            else:
+                idx = -1
+                for _ in range(nth):
+                    idx = t.find(old, idx + 1)
+                    if idx < 0:
+                        print("MUTATION ERROR: occurrence %d of %r not found in %s" % (nth, old[:80], f)); return 3
+                open(p, "w").write(t[:idx] + new + t[idx + len(old):])
         for pt in patches:
             r = subprocess.run(["git", "apply", "--directory", "", os.path.abspath(pt)], cwd=dst)
             if r.returncode != 0:
